@@ -141,6 +141,18 @@ func (annotStream) Generate(rng *rand.Rand, tier string, emit func(Case)) {
 		emit(Case{"op": "parse", "entries": mapToProto(map[string]string{"cdi.k8s.io/p_d": strings.Join(devs, ",")})})
 		emit(Case{"op": "parse", "entries": mapToProto(map[string]string{"cdi.k8s.io/p_d": strings.Join(devs, ","), "cdi.k8s.io/q_e": strings.Join(devs[:2], ",")})})
 	}
+	// one requested name that itself contains the list separator (every piece qualified on its own), a trailing or
+	// leading separator, blanks around names: none of these is a qualified device name, the request must be refused
+	for _, devs := range [][]string{{"vendor.com/class=a,vendor.com/class=b"}, {"v.com/k=a", "v.com/k=b,v.com/k=c", "v.com/k=d"},
+		{"v.com/k=a,"}, {",v.com/k=a"}, {"v.com/k=a, v.com/k=b"}, {" v.com/k=a"}, {"v.com/k=a "}, {"v.com/k=a\n"}, {"v.com/k=a,v.com/k=a"}, {""}, {"v.com/k=a", ""}} {
+		emit(Case{"op": "value", "devices": hxList(devs)})
+		emit(Case{"op": "update", "ann": mapToProto(map[string]string{"other": "1"}), "plugin": hx("p"), "dev": hx("d"), "devices": hxList(devs)})
+	}
+	// values with empty, blank or padded elements at every position
+	for _, val := range []string{"", ",", "a.com/b=c,", ",a.com/b=c", "a.com/b=c,,d.org/e=f", "a.com/b=c, ,d.org/e=f", "a.com/b=c, d.org/e=f", " a.com/b=c", "a.com/b=c ", "a.com/b=c,\t", ",,"} {
+		emit(Case{"op": "parse", "entries": mapToProto(map[string]string{"cdi.k8s.io/p_d": val})})
+		emit(Case{"op": "parse", "entries": mapToProto(map[string]string{"cdi.k8s.io/p_d": val, "cdi.k8s.io/q_e": "v.com/k=n"})})
+	}
 	for i := 0; i < n; i++ {
 		plugin := genKeyPart(rng, 1+rng.Intn(8))
 		dev := genKeyPart(rng, 1+rng.Intn(8))
